@@ -15,7 +15,7 @@ if [ -n "$TRY_IN_REPO" ]; then
   tree=/repo
 else
   tree=/root/scratch/seedtry_$$
-  trap 'rm -rf $tree' EXIT
+  trap 'rm -rf $tree; git -C "$PWD" checkout -q -- lean/FDAModel/Generated 2>/dev/null' EXIT
   rsync -a --exclude .git ${SEED_BASE:-/repo}/ $tree/
   (cd $tree && patch -p1 -s --no-backup-if-mismatch < "$d/patch.diff") || { echo "$d patch does not apply"; exit 2; }
   export VERIF_REPO=$tree
